@@ -101,6 +101,14 @@ META = {
         "note": "Positions are complete per state in the thorough tier; states themselves are sampled. Interference kinds really change the API state first, so only responses a real API server could give are injected.",
         "technique": "fault injection enumerated over API-call positions of generated states (rapid), differential against an unfaulted twin",
     },
+    "C16": {
+        "text": "Generated event sequences are delivered through the handlers captured from the real constructor and the resulting queue content is "
+                "bracketed by a reference model of who must and who may be enqueued; real worker steps with generated outcomes check the "
+                "AddRateLimited / Forget bookkeeping.",
+        "design_ref": "DESIGN.md section 3, C16",
+        "note": "Informer machinery itself (delivery, resync) is client-go's and trusted; events are synthesised by the harness.",
+        "technique": "property-based testing (rapid) of event handlers against a required/allowed-set model",
+    },
 }
 
 _pending = "check not built yet in this round of the build; planned per DESIGN.md section 3 (generated-input search applies)"
